@@ -16,7 +16,7 @@ let next () = let l = lines.(!pos) in incr pos; l
 let rule_name = function
   | R_LOGIN -> "login" | R_TIMEOUT -> "timeout" | R_SCRIPT_INDEX -> "script_index" | R_PATTERN -> "pattern"
   | R_SEND -> "send" | R_NOEXPECT -> "noexpect" | R_GROUP -> "group" | R_FOREACH_SCOPE -> "foreach_scope"
-  | R_IF_SCOPE -> "if_scope" | R_SETRESULT_SCOPE -> "setresult_scope" | R_LOOP -> "loop"
+  | R_IF_SCOPE -> "if_scope" | R_SETRESULT_SCOPE -> "setresult_scope" | R_LOOP -> "loop" | R_EMPTY -> "empty_block"
 
 let path_str p = if p = [] then "-" else String.concat "." (List.map (fun n -> string_of_int (int_of_nat n)) p)
 let nsub t = match ngroups t with Some n -> string_of_int (int_of_nat n) | None -> "none"
